@@ -76,6 +76,14 @@ func (s *c09Store) ReadHashes(idx []int64) ([]tlog.Hash, error) {
 	case 3:
 		s.fired = true
 		return append(out, tlog.Hash{}), nil
+	case 4: // an error together with a result of the right length that is only partly filled in
+		if len(out) > 0 {
+			s.fired = true
+			for i := len(out) / 2; i < len(out); i++ {
+				out[i] = tlog.Hash{}
+			}
+			return out, fmt.Errorf("simulated store read error after %d of %d hashes", len(out)/2, len(out))
+		}
 	}
 	return out, nil
 }
@@ -140,10 +148,10 @@ func c09Explore(src *choice.Src) *core.Result {
 		var underFault []tlog.Hash // what StoredHashes returned without an error although a read failed
 		underFaultKind := 0
 		if faultEvery > 0 && src.Bool(1, 4*faultEvery) {
-			st.fault, st.fired = src.Range(1, 3), false
+			st.fault, st.fired = src.Range(1, 4), false
 			hs, err := tlog.StoredHashes(i, data, st)
 			if st.fired {
-				res.Faults[[]string{"", "store-read-error", "store-read-short", "store-read-long"}[st.fault]]++
+				res.Faults[[]string{"", "store-read-error", "store-read-short", "store-read-long", "store-read-error-with-partial-result"}[st.fault]]++
 				if err == nil {
 					// allowed only if the result is right all the same (compared with the honest append below)
 					underFault, underFaultKind = append([]tlog.Hash{}, hs...), st.fault
@@ -441,12 +449,12 @@ func (w *c09Inter) step(l *c09Log) {
 	underFaultKind := 0
 	if w.src.Bool(1, 6) {
 		// a failing read first: must surface, must leave nothing behind that later operations trip over
-		l.st.fault, l.st.fired = w.src.Range(1, 3), false
+		l.st.fault, l.st.fired = w.src.Range(1, 4), false
 		l.busy = true
 		hs, err := tlog.StoredHashes(l.n, data, l.st)
 		l.busy = false
 		if l.st.fired {
-			res.Faults[[]string{"", "store-read-error", "store-read-short", "store-read-long"}[l.st.fault]]++
+			res.Faults[[]string{"", "store-read-error", "store-read-short", "store-read-long", "store-read-error-with-partial-result"}[l.st.fault]]++
 			l.fails++
 			if err == nil {
 				underFault, underFaultKind = append([]tlog.Hash{}, hs...), l.st.fault
